@@ -276,7 +276,23 @@ pub fn recut_after_delivery(view: &WireView, lives: &[VsockLife], src: std::net:
             Some((len, first_recv, t0)) => {
                 if *len != p.payload.len() {
                     if let Some(r) = *first_recv {
-                        if r <= wp.t && unique_sender_at(*t0) && unique_sender_at(wp.t) {
+                        // (only the known mechanism: everything before the probe acknowledged to the sender)
+                        let acked = view
+                            .pkts
+                            .iter()
+                            .filter(|q| !q.scripted && q.src == dst && q.dst == src)
+                            .filter_map(|q| {
+                                let pk = q.pkt.as_ref()?;
+                                let t = q.recvs.first()?.0;
+                                if t <= wp.t && pk.ty != wire::ST_SYN && (pk.conn_id == id.wrapping_sub(1) || pk.conn_id == id.wrapping_add(1)) && wire::seq_diff(pk.ack, p.seq.wrapping_sub(1)) >= 0 && wire::seq_diff(pk.ack, p.seq.wrapping_sub(1)) < 1000 {
+                                    Some(())
+                                } else {
+                                    None
+                                }
+                            })
+                            .next()
+                            .is_some();
+                        if r <= wp.t && acked && unique_sender_at(*t0) && unique_sender_at(wp.t) {
                             return Some(wp.t);
                         }
                     }
